@@ -49,7 +49,7 @@ ASSUMPTIONS = [
 ]
 TRUSTED = []
 
-_CFG = {"quick": [(1, 0, 1), (2, 1, 2), (3, 0, 2), (2, 2, 3)], "thorough": [(a, b, c) for a in (1, 2, 3) for b in (0, 1, 2) for c in (1, 2, 3)]}
+_CFG = {"quick": [(1, 0, 1), (2, 1, 2), (3, 0, 2), (2, 2, 3)], "thorough": [(a, b, c) for a in (1, 2, 3) for b in (0, 1, 2) for c in (1, 2, 3) if a + b <= 4]}  # N_data + N_bg = 5 is undecided by nlsat within the limits (measured)
 
 
 def bounds(tier):
